@@ -390,7 +390,7 @@ func (fr *Frame) assumeLibResult(name string, v Val) {
 func (fr *Frame) applyContract(site string, sig *types.Signature, callee *ssa.Function, fc *FuncContract, cf *ContractFile, args []Val, st *State, reach Term, iface bool) Val {
 	vc := fr.vc
 	fc.Used = true
-	env := &SpecEnv{vc: vc, fn: callee, cf: cf, vars: map[string]Val{}, oldVars: map[string]Val{}, where: "contract of " + site}
+	env := &SpecEnv{vc: vc, fn: callee, cf: cf, vars: map[string]Val{}, oldVars: map[string]Val{}, where: "contract of " + site, guard: reach}
 	if callee != nil && callee.Pkg != nil {
 		env.pkg = callee.Pkg.Pkg
 	} else if fr.fn.Pkg != nil {
@@ -437,7 +437,7 @@ func (fr *Frame) applyContract(site string, sig *types.Signature, callee *ssa.Fu
 	// results
 	var result Val
 	res := sig.Results()
-	post := &SpecEnv{vc: vc, fn: callee, cf: cf, pkg: env.pkg, vars: map[string]Val{}, oldVars: env.oldVars, cur: st, old: pre, allocOld: pre.Alloc, where: "ensures of " + site}
+	post := &SpecEnv{vc: vc, fn: callee, cf: cf, pkg: env.pkg, vars: map[string]Val{}, oldVars: env.oldVars, cur: st, old: pre, allocOld: pre.Alloc, where: "ensures of " + site, guard: reach}
 	for k, v := range env.vars {
 		post.vars[k] = v
 	}
